@@ -3,7 +3,6 @@ from typing import Literal, Union, overload
 
 import numpy as np
 import torch
-from scipy.optimize import curve_fit
 
 from quantem.core.utils import array_funcs as af
 
@@ -348,6 +347,19 @@ def _bezier_two(xy, c00, c01, c02, c10, c11, c12, c20, c21, c22):
     )
 
 
+def _linear_least_squares(func, rc, data) -> np.ndarray:
+    """
+    Least-squares coefficients of a fit function that is linear in its coefficients
+    (_plane, _parabola, _bezier_two). Solved directly, so data lying exactly on the
+    surface cannot trip the convergence tests of an iterative solver.
+    """
+    num_coefs = func.__code__.co_argcount - 1
+    rc = np.asarray(rc, dtype=float)
+    basis = np.stack([func(rc, *unit) for unit in np.eye(num_coefs)], axis=-1)
+    popt, *_ = np.linalg.lstsq(basis, np.asarray(data, dtype=float).ravel(), rcond=None)
+    return popt
+
+
 # TODO -- testing this
 def fit_origin(
     data: np.ndarray | tuple[np.ndarray, np.ndarray],
@@ -389,8 +401,8 @@ def fit_origin(
         mask1D = mask.reshape(1, np.prod(shape))
         rc_masked = np.vstack((r1D * mask1D, c1D * mask1D))
 
-        popt_r, _ = curve_fit(f, rc_masked, qr0_meas_masked)
-        popt_c, _ = curve_fit(f, rc_masked, qc0_meas_masked)
+        popt_r = _linear_least_squares(f, rc_masked, qr0_meas_masked)
+        popt_c = _linear_least_squares(f, rc_masked, qc0_meas_masked)
 
         if robust:
             popt_r = perform_robust_fitting(
@@ -400,8 +412,8 @@ def fit_origin(
                 f, rc_masked, qc0_meas_masked, popt_c, robust_steps, robust_thresh
             )
     else:
-        popt_r, _ = curve_fit(f, rc, qr0_meas)
-        popt_c, _ = curve_fit(f, rc, qc0_meas)
+        popt_r = _linear_least_squares(f, rc, qr0_meas)
+        popt_c = _linear_least_squares(f, rc, qc0_meas)
 
         if robust:
             popt_r = perform_robust_fitting(f, rc, qr0_meas, popt_r, robust_steps, robust_thresh)
@@ -424,7 +436,7 @@ def perform_robust_fitting(func, rc, data, initial_guess, robust_steps, robust_t
         mask = np.abs(fit_vals - data) <= robust_thresh * rmse
         rc = np.vstack((rc[0][mask], rc[1][mask]))
         data = data[mask]
-        popt, _ = curve_fit(func, rc, data, p0=popt)
+        popt = _linear_least_squares(func, rc, data)
     return popt
 
 
